@@ -36,6 +36,10 @@ pub enum Ty {
     Spanned(Box<Ty>),
     /// untyped tree whose every child is `Spanned<tree>`
     Tree,
+    /// reads any node, then refuses it with `serde::de::Error::custom` (direct oracles only: not in the Coq model)
+    FailCustom,
+    /// reads any node, then refuses it with Serde's static `invalid_value` constructor (direct oracles only)
+    FailInvalid,
 }
 
 #[derive(Clone, Debug)]
@@ -128,6 +132,7 @@ impl Ty {
             Ty::Ignored => "TIgnored".into(),
             Ty::Spanned(t) => format!("(TSpanned {})", t.coq()),
             Ty::Tree => "TTree".into(),
+            Ty::FailCustom | Ty::FailInvalid => panic!("Ty::Fail* has no model counterpart"),
         }
     }
     pub fn size(&self) -> usize {
@@ -569,6 +574,14 @@ impl<'de, 'a> DeserializeSeed<'de> for Seed<'a> {
             }
             Ty::Spanned(t) => d.deserialize_newtype_struct("__yaml_spanned", SpannedV(t)),
             Ty::Tree => d.deserialize_any(TreeV),
+            Ty::FailCustom => {
+                d.deserialize_any(AnyV)?;
+                Err(de::Error::custom("refused by the target type"))
+            }
+            Ty::FailInvalid => {
+                d.deserialize_any(AnyV)?;
+                Err(de::Error::invalid_value(de::Unexpected::Other("this value"), &"another value"))
+            }
         }
     }
 }
